@@ -471,6 +471,337 @@ theorem rotYZpCode_eq (a b E px py pz : ℝ) :
   constructor <;> ext i <;> fin_cases i <;>
     simp only [Matrix.mulVec, dotProduct, Fin.sum_univ_four, Matrix.mul_apply] <;> c08_unfold <;> ring
 
+/-! ## Wrapped momenta: nested space inversions, inverted sums, boosted momenta
+
+`BoostMatrix.evaluate()`, `BoostMatrix.as_explicit()`, `NegativeMomentum.evaluate()` and the printers receive
+the momentum as an expression TREE. Whatever they do with the shape of that tree (unwrap a
+`NegativeMomentum`, distribute over an `ArraySum`, treat an already boosted momentum specially) is invisible
+on a bare symbol and on a single inversion. The families below are regenerated from instances whose argument
+is such a tree; every theorem says: explicit matrix and generated code (cse off / on) are the boost matrix
+`boostEx` AT THE VALUE of the argument — equalities of functions on all reals. In the generated file repeated
+subterms are named (`<family>_s<i>`, `<family>_v<k>_<i>`), never rewritten; the proofs unfold them. -/
+
+/-- `BoostMatrix(NegativeMomentum(NegativeMomentum(p)))` — two space inversions cancel: the explicit matrix and
+the generated code (cse off / on) are the boost matrix of `p` itself (all reals). -/
+theorem boostNeg2_eq (E px py pz : ℝ) :
+    boostNeg2Ex E px py pz = boostEx E px py pz
+      ∧ boostNeg2Code0 E px py pz = boostEx E px py pz
+      ∧ boostNeg2Code1 E px py pz = boostEx E px py pz := by
+  have hx : boostNeg2Ex_rad E px py pz
+      = boostEx_rad E px py pz := by
+    unfold boostNeg2Ex_rad boostEx_rad <;> (try c08_unfold) <;> ring
+  have h0 : boostNeg2Code0_rad E px py pz
+      = boostEx_rad E px py pz := by
+    unfold boostNeg2Code0_rad boostEx_rad <;> (try c08_unfold) <;> ring
+  have h1 : boostNeg2Code1_rad E px py pz
+      = boostEx_rad E px py pz := by
+    unfold boostNeg2Code1_rad boostEx_rad <;> (try c08_unfold) <;> ring
+  refine ⟨?_, ?_, ?_⟩ <;> c08_mat_ext <;> (try simp only [hx, h0, h1]) <;> ring
+
+/-- Three space inversions are one (explicit matrix and the code generated with cse; without cse the printer
+repeats the nested argument in every `len(..)` — 8 MB of source — so that variant is not regenerated). -/
+theorem boostNeg3_eq (E px py pz : ℝ) :
+    boostNeg3Ex E px py pz = boostEx E (-px) (-py) (-pz)
+      ∧ boostNeg3Code1 E px py pz = boostEx E (-px) (-py) (-pz) := by
+  have hx : boostNeg3Ex_rad E px py pz
+      = boostEx_rad E (-px) (-py) (-pz) := by
+    unfold boostNeg3Ex_rad boostEx_rad <;> (try c08_unfold) <;> ring
+  have h0 : boostNeg3Code1_rad E px py pz
+      = boostEx_rad E (-px) (-py) (-pz) := by
+    unfold boostNeg3Code1_rad boostEx_rad <;> (try c08_unfold) <;> ring
+  refine ⟨?_, ?_⟩ <;> c08_mat_ext <;> (try simp only [hx, h0]) <;> ring
+
+/-- `BoostMatrix(NegativeMomentum(ArraySum(p, q)))` is the boost matrix of the inverted sum. -/
+theorem boostNegSum_eq (E px py pz Eq qx qy qz : ℝ) :
+    boostNegSumEx E px py pz Eq qx qy qz = boostEx (E + Eq) (-(px + qx)) (-(py + qy)) (-(pz + qz))
+      ∧ boostNegSumCode0 E px py pz Eq qx qy qz = boostEx (E + Eq) (-(px + qx)) (-(py + qy)) (-(pz + qz))
+      ∧ boostNegSumCode1 E px py pz Eq qx qy qz = boostEx (E + Eq) (-(px + qx)) (-(py + qy)) (-(pz + qz)) := by
+  -- change of variables: the components of the argument become atoms for `ring`
+  obtain ⟨e, rfl⟩ : ∃ e, E = e - Eq := ⟨E + Eq, by ring⟩
+  obtain ⟨x, rfl⟩ : ∃ x, px = x - qx := ⟨px + qx, by ring⟩
+  obtain ⟨y, rfl⟩ : ∃ y, py = y - qy := ⟨py + qy, by ring⟩
+  obtain ⟨z, rfl⟩ : ∃ z, pz = z - qz := ⟨pz + qz, by ring⟩
+  have hx : boostNegSumEx_rad (e - Eq) (x - qx) (y - qy) (z - qz) Eq qx qy qz
+      = boostEx_rad ((e - Eq) + Eq) (-((x - qx) + qx)) (-((y - qy) + qy)) (-((z - qz) + qz)) := by
+    unfold boostNegSumEx_rad boostEx_rad <;> (try c08_unfold) <;> ring
+  have h0 : boostNegSumCode0_rad (e - Eq) (x - qx) (y - qy) (z - qz) Eq qx qy qz
+      = boostEx_rad ((e - Eq) + Eq) (-((x - qx) + qx)) (-((y - qy) + qy)) (-((z - qz) + qz)) := by
+    unfold boostNegSumCode0_rad boostEx_rad <;> (try c08_unfold) <;> ring
+  have h1 : boostNegSumCode1_rad (e - Eq) (x - qx) (y - qy) (z - qz) Eq qx qy qz
+      = boostEx_rad ((e - Eq) + Eq) (-((x - qx) + qx)) (-((y - qy) + qy)) (-((z - qz) + qz)) := by
+    unfold boostNegSumCode1_rad boostEx_rad <;> (try c08_unfold) <;> ring
+  refine ⟨?_, ?_, ?_⟩ <;> c08_mat_ext <;> (try simp only [hx, h0, h1]) <;> ring
+
+/-- `BoostMatrix(ArraySum(NegativeMomentum(p), NegativeMomentum(q)))`: the sum of the inverted momenta is the
+inverted sum. -/
+theorem boostSumNeg_eq (E px py pz Eq qx qy qz : ℝ) :
+    boostSumNegEx E px py pz Eq qx qy qz = boostEx (E + Eq) (-(px + qx)) (-(py + qy)) (-(pz + qz))
+      ∧ boostSumNegCode0 E px py pz Eq qx qy qz = boostEx (E + Eq) (-(px + qx)) (-(py + qy)) (-(pz + qz))
+      ∧ boostSumNegCode1 E px py pz Eq qx qy qz = boostEx (E + Eq) (-(px + qx)) (-(py + qy)) (-(pz + qz)) := by
+  -- change of variables: the components of the argument become atoms for `ring`
+  obtain ⟨e, rfl⟩ : ∃ e, E = e - Eq := ⟨E + Eq, by ring⟩
+  obtain ⟨x, rfl⟩ : ∃ x, px = x - qx := ⟨px + qx, by ring⟩
+  obtain ⟨y, rfl⟩ : ∃ y, py = y - qy := ⟨py + qy, by ring⟩
+  obtain ⟨z, rfl⟩ : ∃ z, pz = z - qz := ⟨pz + qz, by ring⟩
+  have hx : boostSumNegEx_rad (e - Eq) (x - qx) (y - qy) (z - qz) Eq qx qy qz
+      = boostEx_rad ((e - Eq) + Eq) (-((x - qx) + qx)) (-((y - qy) + qy)) (-((z - qz) + qz)) := by
+    unfold boostSumNegEx_rad boostEx_rad <;> (try c08_unfold) <;> ring
+  have h0 : boostSumNegCode0_rad (e - Eq) (x - qx) (y - qy) (z - qz) Eq qx qy qz
+      = boostEx_rad ((e - Eq) + Eq) (-((x - qx) + qx)) (-((y - qy) + qy)) (-((z - qz) + qz)) := by
+    unfold boostSumNegCode0_rad boostEx_rad <;> (try c08_unfold) <;> ring
+  have h1 : boostSumNegCode1_rad (e - Eq) (x - qx) (y - qy) (z - qz) Eq qx qy qz
+      = boostEx_rad ((e - Eq) + Eq) (-((x - qx) + qx)) (-((y - qy) + qy)) (-((z - qz) + qz)) := by
+    unfold boostSumNegCode1_rad boostEx_rad <;> (try c08_unfold) <;> ring
+  refine ⟨?_, ?_, ?_⟩ <;> c08_mat_ext <;> (try simp only [hx, h0, h1]) <;> ring
+
+/-- `BoostMatrix(ArraySum(p, NegativeMomentum(q)))`: only the second term is inverted. -/
+theorem boostSumMix_eq (E px py pz Eq qx qy qz : ℝ) :
+    boostSumMixEx E px py pz Eq qx qy qz = boostEx (E + Eq) (px - qx) (py - qy) (pz - qz)
+      ∧ boostSumMixCode0 E px py pz Eq qx qy qz = boostEx (E + Eq) (px - qx) (py - qy) (pz - qz)
+      ∧ boostSumMixCode1 E px py pz Eq qx qy qz = boostEx (E + Eq) (px - qx) (py - qy) (pz - qz) := by
+  -- change of variables: the components of the argument become atoms for `ring`
+  obtain ⟨e, rfl⟩ : ∃ e, E = e - Eq := ⟨E + Eq, by ring⟩
+  obtain ⟨x, rfl⟩ : ∃ x, px = x + qx := ⟨px - qx, by ring⟩
+  obtain ⟨y, rfl⟩ : ∃ y, py = y + qy := ⟨py - qy, by ring⟩
+  obtain ⟨z, rfl⟩ : ∃ z, pz = z + qz := ⟨pz - qz, by ring⟩
+  have hx : boostSumMixEx_rad (e - Eq) (x + qx) (y + qy) (z + qz) Eq qx qy qz
+      = boostEx_rad ((e - Eq) + Eq) ((x + qx) - qx) ((y + qy) - qy) ((z + qz) - qz) := by
+    unfold boostSumMixEx_rad boostEx_rad <;> (try c08_unfold) <;> ring
+  have h0 : boostSumMixCode0_rad (e - Eq) (x + qx) (y + qy) (z + qz) Eq qx qy qz
+      = boostEx_rad ((e - Eq) + Eq) ((x + qx) - qx) ((y + qy) - qy) ((z + qz) - qz) := by
+    unfold boostSumMixCode0_rad boostEx_rad <;> (try c08_unfold) <;> ring
+  have h1 : boostSumMixCode1_rad (e - Eq) (x + qx) (y + qy) (z + qz) Eq qx qy qz
+      = boostEx_rad ((e - Eq) + Eq) ((x + qx) - qx) ((y + qy) - qy) ((z + qz) - qz) := by
+    unfold boostSumMixCode1_rad boostEx_rad <;> (try c08_unfold) <;> ring
+  refine ⟨?_, ?_, ?_⟩ <;> c08_mat_ext <;> (try simp only [hx, h0, h1]) <;> ring
+
+/-- `BoostMatrix(NegativeMomentum(ArraySum(NegativeMomentum(p), q)))`: an inversion of a sum that contains an
+inversion — `(E_p + E_q, p⃗ − q⃗)`. -/
+theorem boostNegMix_eq (E px py pz Eq qx qy qz : ℝ) :
+    boostNegMixEx E px py pz Eq qx qy qz = boostEx (E + Eq) (px - qx) (py - qy) (pz - qz)
+      ∧ boostNegMixCode0 E px py pz Eq qx qy qz = boostEx (E + Eq) (px - qx) (py - qy) (pz - qz)
+      ∧ boostNegMixCode1 E px py pz Eq qx qy qz = boostEx (E + Eq) (px - qx) (py - qy) (pz - qz) := by
+  -- change of variables: the components of the argument become atoms for `ring`
+  obtain ⟨e, rfl⟩ : ∃ e, E = e - Eq := ⟨E + Eq, by ring⟩
+  obtain ⟨x, rfl⟩ : ∃ x, px = x + qx := ⟨px - qx, by ring⟩
+  obtain ⟨y, rfl⟩ : ∃ y, py = y + qy := ⟨py - qy, by ring⟩
+  obtain ⟨z, rfl⟩ : ∃ z, pz = z + qz := ⟨pz - qz, by ring⟩
+  have hx : boostNegMixEx_rad (e - Eq) (x + qx) (y + qy) (z + qz) Eq qx qy qz
+      = boostEx_rad ((e - Eq) + Eq) ((x + qx) - qx) ((y + qy) - qy) ((z + qz) - qz) := by
+    unfold boostNegMixEx_rad boostEx_rad <;> (try c08_unfold) <;> ring
+  have h0 : boostNegMixCode0_rad (e - Eq) (x + qx) (y + qy) (z + qz) Eq qx qy qz
+      = boostEx_rad ((e - Eq) + Eq) ((x + qx) - qx) ((y + qy) - qy) ((z + qz) - qz) := by
+    unfold boostNegMixCode0_rad boostEx_rad <;> (try c08_unfold) <;> ring
+  have h1 : boostNegMixCode1_rad (e - Eq) (x + qx) (y + qy) (z + qz) Eq qx qy qz
+      = boostEx_rad ((e - Eq) + Eq) ((x + qx) - qx) ((y + qy) - qy) ((z + qz) - qz) := by
+    unfold boostNegMixCode1_rad boostEx_rad <;> (try c08_unfold) <;> ring
+  refine ⟨?_, ?_, ?_⟩ <;> c08_mat_ext <;> (try simp only [hx, h0, h1]) <;> ring
+
+/-- The generated code of the nested / summed space inversions themselves: `N(N(p)) = p`,
+`N(N(N(p))) = (E, −p⃗)`. -/
+theorem negMomNestedCode_eq (E px py pz : ℝ) :
+    negMom2Code0 E px py pz = ![E, px, py, pz] ∧ negMom2Code1 E px py pz = ![E, px, py, pz]
+      ∧ negMom3Code1 E px py pz = ![E, -px, -py, -pz] := by
+  refine ⟨?_, ?_, ?_⟩ <;> c08_vec_ext <;> ring
+
+theorem sumNegCode_eq (E px py pz Eq qx qy qz : ℝ) :
+    sumNegCode0 E px py pz Eq qx qy qz = ![E + Eq, -(px + qx), -(py + qy), -(pz + qz)]
+      ∧ sumNegCode1 E px py pz Eq qx qy qz = ![E + Eq, -(px + qx), -(py + qy), -(pz + qz)] := by
+  constructor <;> c08_vec_ext <;> ring
+
+/-- **Inversion commutes with the sum**: the code generated for `NegativeMomentum(ArraySum(p, q))` and for
+`ArraySum(NegativeMomentum(p), NegativeMomentum(q))` compute the same vector. -/
+theorem negMomSum_eq_sumNeg (E px py pz Eq qx qy qz : ℝ) :
+    negMomSumCode0 E px py pz Eq qx qy qz = sumNegCode0 E px py pz Eq qx qy qz
+      ∧ negMomSumCode1 E px py pz Eq qx qy qz = sumNegCode1 E px py pz Eq qx qy qz := by
+  rw [(negMomSumCode_eq E px py pz Eq qx qy qz).1, (negMomSumCode_eq E px py pz Eq qx qy qz).2,
+    (sumNegCode_eq E px py pz Eq qx qy qz).1, (sumNegCode_eq E px py pz Eq qx qy qz).2]
+  exact ⟨rfl, rfl⟩
+
+theorem negMixCode_eq (E px py pz Eq qx qy qz : ℝ) :
+    negMixCode0 E px py pz Eq qx qy qz = ![E + Eq, px - qx, py - qy, pz - qz]
+      ∧ negMixCode1 E px py pz Eq qx qy qz = ![E + Eq, px - qx, py - qy, pz - qz] := by
+  constructor <;> c08_vec_ext <;> ring
+
+/-! ### The inverse boost of an already inverted momentum -/
+
+/-- `B(p) · B(η p) = 1`: the boost of `p` is the inverse of the boost of the inverted momentum as well. -/
+theorem boost_inverted_inverse (E px py pz : ℝ) (hE : 0 < E) (hp : 0 < px ^ 2 + py ^ 2 + pz ^ 2)
+    (hm : px ^ 2 + py ^ 2 + pz ^ 2 < E ^ 2) :
+    boostEx E px py pz * boostEx E (-px) (-py) (-pz) = 1 := by
+  have hp' : 0 < (-px) ^ 2 + (-py) ^ 2 + (-pz) ^ 2 := by simpa using hp
+  have hm' : (-px) ^ 2 + (-py) ^ 2 + (-pz) ^ 2 < E ^ 2 := by simpa using hm
+  have h := boost_neg_inverse E (-px) (-py) (-pz) hE hp' hm'
+  rw [boostNeg_eq] at h
+  simpa only [neg_neg] using h
+
+/-- **The inverse-boost statement for `q = NegativeMomentum(p)`**: the code generated for
+`BoostMatrix(NegativeMomentum(q))` (two inversions) yields the inverse of the code generated for
+`BoostMatrix(q)` (one inversion), cse off and on. -/
+theorem boostNeg2Code_inverse (E px py pz : ℝ) (hE : 0 < E) (hp : 0 < px ^ 2 + py ^ 2 + pz ^ 2)
+    (hm : px ^ 2 + py ^ 2 + pz ^ 2 < E ^ 2) :
+    boostNeg2Code0 E px py pz * boostNegCode0 E px py pz = 1
+      ∧ boostNeg2Code1 E px py pz * boostNegCode1 E px py pz = 1 := by
+  rw [(boostNeg2_eq E px py pz).2.1, (boostNeg2_eq E px py pz).2.2, boostNegCode0_eq, boostNegCode1_eq,
+    boostNeg_eq]
+  exact ⟨boost_inverted_inverse E px py pz hE hp hm, boost_inverted_inverse E px py pz hE hp hm⟩
+
+/-- The code generated for `BoostMatrix(NegativeMomentum(NegativeMomentum(p)))` sends `p` to its rest frame and
+is a proper orthochronous Lorentz matrix. -/
+theorem boostNeg2Code_proper (E px py pz : ℝ) (hE : 0 < E) (hp : 0 < px ^ 2 + py ^ 2 + pz ^ 2)
+    (hm : px ^ 2 + py ^ 2 + pz ^ 2 < E ^ 2) :
+    ((boostNeg2Code0 E px py pz).mulVec ![E, px, py, pz] = ![mass E px py pz, 0, 0, 0]
+        ∧ (boostNeg2Code0 E px py pz)ᵀ * metricEx * boostNeg2Code0 E px py pz = metricEx
+        ∧ (boostNeg2Code0 E px py pz).det = 1 ∧ 1 ≤ boostNeg2Code0 E px py pz 0 0)
+      ∧ ((boostNeg2Code1 E px py pz).mulVec ![E, px, py, pz] = ![mass E px py pz, 0, 0, 0]
+        ∧ (boostNeg2Code1 E px py pz)ᵀ * metricEx * boostNeg2Code1 E px py pz = metricEx
+        ∧ (boostNeg2Code1 E px py pz).det = 1 ∧ 1 ≤ boostNeg2Code1 E px py pz 0 0) := by
+  rw [(boostNeg2_eq E px py pz).2.1, (boostNeg2_eq E px py pz).2.2]
+  exact ⟨⟨boost_self E px py pz hE hp hm, boost_lorentz E px py pz hE hp hm, boost_det E px py pz hE hp hm,
+      boost_00_ge_one E px py pz hE hp hm⟩,
+    ⟨boost_self E px py pz hE hp hm, boost_lorentz E px py pz hE hp hm, boost_det E px py pz hE hp hm,
+      boost_00_ge_one E px py pz hE hp hm⟩⟩
+
+/-- The ONE function generated for `MatrixMultiplication(BoostMatrix(NegativeMomentum(p)), BoostMatrix(p))`
+is the product of the two explicit boost matrices (all reals) … -/
+theorem invPairCode_eq (E px py pz : ℝ) :
+    invPairCode0 E px py pz = boostEx E (-px) (-py) (-pz) * boostEx E px py pz
+      ∧ invPairCode1 E px py pz = boostEx E (-px) (-py) (-pz) * boostEx E px py pz := by
+  have r00 : invPairCode0_rad0 E px py pz = boostEx_rad E px py pz := by
+    unfold invPairCode0_rad0 boostEx_rad <;> (try c08_unfold) <;> ring
+  have r01 : invPairCode0_rad1 E px py pz = boostEx_rad E px py pz := by
+    unfold invPairCode0_rad1 boostEx_rad <;> (try c08_unfold) <;> ring
+  have r10 : invPairCode1_rad0 E px py pz = boostEx_rad E px py pz := by
+    unfold invPairCode1_rad0 boostEx_rad <;> (try c08_unfold) <;> ring
+  have r11 : invPairCode1_rad1 E px py pz = boostEx_rad E px py pz := by
+    unfold invPairCode1_rad1 boostEx_rad <;> (try c08_unfold) <;> ring
+  have rn : boostEx_rad E (-px) (-py) (-pz) = boostEx_rad E px py pz := by
+    unfold boostEx_rad; ring
+  constructor <;> ext i j <;> fin_cases i <;> fin_cases j <;>
+    simp only [Matrix.mul_apply, Fin.sum_univ_four] <;> c08_unfold <;>
+    (try simp only [r00, r01, r10, r11, rn]) <;> ring
+
+/-- … and the same for the already inverted momentum `q = NegativeMomentum(p)`:
+`MatrixMultiplication(BoostMatrix(NegativeMomentum(q)), BoostMatrix(q))`. -/
+theorem invPairNegCode_eq (E px py pz : ℝ) :
+    invPairNegCode0 E px py pz = boostEx E px py pz * boostEx E (-px) (-py) (-pz)
+      ∧ invPairNegCode1 E px py pz = boostEx E px py pz * boostEx E (-px) (-py) (-pz) := by
+  have r00 : invPairNegCode0_rad0 E px py pz = boostEx_rad E px py pz := by
+    unfold invPairNegCode0_rad0 boostEx_rad <;> (try c08_unfold) <;> ring
+  have r01 : invPairNegCode0_rad1 E px py pz = boostEx_rad E px py pz := by
+    unfold invPairNegCode0_rad1 boostEx_rad <;> (try c08_unfold) <;> ring
+  have r10 : invPairNegCode1_rad0 E px py pz = boostEx_rad E px py pz := by
+    unfold invPairNegCode1_rad0 boostEx_rad <;> (try c08_unfold) <;> ring
+  have r11 : invPairNegCode1_rad1 E px py pz = boostEx_rad E px py pz := by
+    unfold invPairNegCode1_rad1 boostEx_rad <;> (try c08_unfold) <;> ring
+  have rn : boostEx_rad E (-px) (-py) (-pz) = boostEx_rad E px py pz := by
+    unfold boostEx_rad; ring
+  constructor <;> ext i j <;> fin_cases i <;> fin_cases j <;>
+    simp only [Matrix.mul_apply, Fin.sum_univ_four] <;> c08_unfold <;>
+    (try simp only [r00, r01, r10, r11, rn]) <;> ring
+
+/-- Hence both generated products are the unit matrix for every time-like `p` with `E > 0`, `p⃗ ≠ 0`. -/
+theorem invPairCode_one (E px py pz : ℝ) (hE : 0 < E) (hp : 0 < px ^ 2 + py ^ 2 + pz ^ 2)
+    (hm : px ^ 2 + py ^ 2 + pz ^ 2 < E ^ 2) :
+    (invPairCode0 E px py pz = 1 ∧ invPairCode1 E px py pz = 1)
+      ∧ (invPairNegCode0 E px py pz = 1 ∧ invPairNegCode1 E px py pz = 1) := by
+  have h := boost_neg_inverse E px py pz hE hp hm
+  rw [boostNeg_eq] at h
+  rw [(invPairCode_eq E px py pz).1, (invPairCode_eq E px py pz).2, (invPairNegCode_eq E px py pz).1,
+    (invPairNegCode_eq E px py pz).2]
+  exact ⟨⟨h, h⟩, boost_inverted_inverse E px py pz hE hp hm, boost_inverted_inverse E px py pz hE hp hm⟩
+
+/-! ### A momentum boosted by another boost (what `compute_boost_chain` builds) -/
+
+/-- component `i` of `B(q)·p`: the momentum `p` boosted with the explicit boost matrix of `q` -/
+noncomputable def boostedBy (Eq qx qy qz E px py pz : ℝ) (i : Fin 4) : ℝ :=
+  (boostEx Eq qx qy qz).mulVec ![E, px, py, pz] i
+
+/-! `BoostMatrix(ArrayMultiplication(BoostMatrix(q), p))`: explicit matrix and generated code (cse off / on)
+are the boost matrix of the boosted momentum `B(q)·p` (all reals). The named vector `…_v0_i` of each family
+is the matrix-times-vector result inside the generated code resp. the explicit matrix. -/
+
+theorem boostChainEx_eq (E px py pz Eq qx qy qz : ℝ) :
+    boostChainEx E px py pz Eq qx qy qz
+      = boostEx (boostedBy Eq qx qy qz E px py pz 0) (boostedBy Eq qx qy qz E px py pz 1)
+          (boostedBy Eq qx qy qz E px py pz 2) (boostedBy Eq qx qy qz E px py pz 3) := by
+  have r0 : boostChainEx_rad0 E px py pz Eq qx qy qz = boostEx_rad Eq qx qy qz := by
+    unfold boostChainEx_rad0 boostEx_rad <;> (try c08_unfold) <;> ring
+  have v0 : boostChainEx_v0_0 E px py pz Eq qx qy qz = boostedBy Eq qx qy qz E px py pz 0 := by
+    simp only [boostedBy, Matrix.mulVec, dotProduct, Fin.sum_univ_four] <;> c08_unfold <;>
+      (try simp only [r0]) <;> ring
+  have v1 : boostChainEx_v0_1 E px py pz Eq qx qy qz = boostedBy Eq qx qy qz E px py pz 1 := by
+    simp only [boostedBy, Matrix.mulVec, dotProduct, Fin.sum_univ_four] <;> c08_unfold <;>
+      (try simp only [r0]) <;> ring
+  have v2 : boostChainEx_v0_2 E px py pz Eq qx qy qz = boostedBy Eq qx qy qz E px py pz 2 := by
+    simp only [boostedBy, Matrix.mulVec, dotProduct, Fin.sum_univ_four] <;> c08_unfold <;>
+      (try simp only [r0]) <;> ring
+  have v3 : boostChainEx_v0_3 E px py pz Eq qx qy qz = boostedBy Eq qx qy qz E px py pz 3 := by
+    simp only [boostedBy, Matrix.mulVec, dotProduct, Fin.sum_univ_four] <;> c08_unfold <;>
+      (try simp only [r0]) <;> ring
+  generalize boostedBy Eq qx qy qz E px py pz 0 = w0 at *
+  generalize boostedBy Eq qx qy qz E px py pz 1 = w1 at *
+  generalize boostedBy Eq qx qy qz E px py pz 2 = w2 at *
+  generalize boostedBy Eq qx qy qz E px py pz 3 = w3 at *
+  have r1 : boostChainEx_rad1 E px py pz Eq qx qy qz = boostEx_rad w0 w1 w2 w3 := by
+    unfold boostChainEx_rad1 boostEx_rad <;> (try c08_unfold_entries) <;> (try simp only [v0, v1, v2, v3]) <;> ring
+  ext i j
+  fin_cases i <;> fin_cases j <;> c08_unfold_entries <;> (try simp only [v0, v1, v2, v3, r1]) <;> ring
+
+theorem boostChainCode0_eq (E px py pz Eq qx qy qz : ℝ) :
+    boostChainCode0 E px py pz Eq qx qy qz
+      = boostEx (boostedBy Eq qx qy qz E px py pz 0) (boostedBy Eq qx qy qz E px py pz 1)
+          (boostedBy Eq qx qy qz E px py pz 2) (boostedBy Eq qx qy qz E px py pz 3) := by
+  have r0 : boostChainCode0_rad0 E px py pz Eq qx qy qz = boostEx_rad Eq qx qy qz := by
+    unfold boostChainCode0_rad0 boostEx_rad <;> (try c08_unfold) <;> ring
+  have v0 : boostChainCode0_v0_0 E px py pz Eq qx qy qz = boostedBy Eq qx qy qz E px py pz 0 := by
+    simp only [boostedBy, Matrix.mulVec, dotProduct, Fin.sum_univ_four] <;> c08_unfold <;>
+      (try simp only [r0]) <;> ring
+  have v1 : boostChainCode0_v0_1 E px py pz Eq qx qy qz = boostedBy Eq qx qy qz E px py pz 1 := by
+    simp only [boostedBy, Matrix.mulVec, dotProduct, Fin.sum_univ_four] <;> c08_unfold <;>
+      (try simp only [r0]) <;> ring
+  have v2 : boostChainCode0_v0_2 E px py pz Eq qx qy qz = boostedBy Eq qx qy qz E px py pz 2 := by
+    simp only [boostedBy, Matrix.mulVec, dotProduct, Fin.sum_univ_four] <;> c08_unfold <;>
+      (try simp only [r0]) <;> ring
+  have v3 : boostChainCode0_v0_3 E px py pz Eq qx qy qz = boostedBy Eq qx qy qz E px py pz 3 := by
+    simp only [boostedBy, Matrix.mulVec, dotProduct, Fin.sum_univ_four] <;> c08_unfold <;>
+      (try simp only [r0]) <;> ring
+  generalize boostedBy Eq qx qy qz E px py pz 0 = w0 at *
+  generalize boostedBy Eq qx qy qz E px py pz 1 = w1 at *
+  generalize boostedBy Eq qx qy qz E px py pz 2 = w2 at *
+  generalize boostedBy Eq qx qy qz E px py pz 3 = w3 at *
+  have r1 : boostChainCode0_rad1 E px py pz Eq qx qy qz = boostEx_rad w0 w1 w2 w3 := by
+    unfold boostChainCode0_rad1 boostEx_rad <;> (try c08_unfold_entries) <;> (try simp only [v0, v1, v2, v3]) <;> ring
+  ext i j
+  fin_cases i <;> fin_cases j <;> c08_unfold_entries <;> (try simp only [v0, v1, v2, v3, r1]) <;> ring
+
+theorem boostChainCode1_eq (E px py pz Eq qx qy qz : ℝ) :
+    boostChainCode1 E px py pz Eq qx qy qz
+      = boostEx (boostedBy Eq qx qy qz E px py pz 0) (boostedBy Eq qx qy qz E px py pz 1)
+          (boostedBy Eq qx qy qz E px py pz 2) (boostedBy Eq qx qy qz E px py pz 3) := by
+  have r0 : boostChainCode1_rad0 E px py pz Eq qx qy qz = boostEx_rad Eq qx qy qz := by
+    unfold boostChainCode1_rad0 boostEx_rad <;> (try c08_unfold) <;> ring
+  have v0 : boostChainCode1_v0_0 E px py pz Eq qx qy qz = boostedBy Eq qx qy qz E px py pz 0 := by
+    simp only [boostedBy, Matrix.mulVec, dotProduct, Fin.sum_univ_four] <;> c08_unfold <;>
+      (try simp only [r0]) <;> ring
+  have v1 : boostChainCode1_v0_1 E px py pz Eq qx qy qz = boostedBy Eq qx qy qz E px py pz 1 := by
+    simp only [boostedBy, Matrix.mulVec, dotProduct, Fin.sum_univ_four] <;> c08_unfold <;>
+      (try simp only [r0]) <;> ring
+  have v2 : boostChainCode1_v0_2 E px py pz Eq qx qy qz = boostedBy Eq qx qy qz E px py pz 2 := by
+    simp only [boostedBy, Matrix.mulVec, dotProduct, Fin.sum_univ_four] <;> c08_unfold <;>
+      (try simp only [r0]) <;> ring
+  have v3 : boostChainCode1_v0_3 E px py pz Eq qx qy qz = boostedBy Eq qx qy qz E px py pz 3 := by
+    simp only [boostedBy, Matrix.mulVec, dotProduct, Fin.sum_univ_four] <;> c08_unfold <;>
+      (try simp only [r0]) <;> ring
+  generalize boostedBy Eq qx qy qz E px py pz 0 = w0 at *
+  generalize boostedBy Eq qx qy qz E px py pz 1 = w1 at *
+  generalize boostedBy Eq qx qy qz E px py pz 2 = w2 at *
+  generalize boostedBy Eq qx qy qz E px py pz 3 = w3 at *
+  have r1 : boostChainCode1_rad1 E px py pz Eq qx qy qz = boostEx_rad w0 w1 w2 w3 := by
+    unfold boostChainCode1_rad1 boostEx_rad <;> (try c08_unfold_entries) <;> (try simp only [v0, v1, v2, v3]) <;> ring
+  ext i j
+  fin_cases i <;> fin_cases j <;> c08_unfold_entries <;> (try simp only [v0, v1, v2, v3, r1]) <;> ring
+
 /-! ## The einsum subscripts generated for ANY number of arrays
 
 `Model/C08Einsum.lean` models `_create_einsum_subscripts` of both classes line by line (tied to the
